@@ -40,12 +40,13 @@ type c16Dev struct {
 }
 
 type c16World struct {
-	devs    map[[8]byte]*c16Dev
-	list    []*c16Dev
-	keks    map[string][]byte
-	netID   [3]byte
-	sender  string // how this network server spells its NetID in SenderID (also its KEK label)
-	handler http.Handler
+	devs     map[[8]byte]*c16Dev
+	list     []*c16Dev
+	keks     map[string][]byte
+	netID    [3]byte
+	emptyKEK bool
+	sender   string // how this network server spells its NetID in SenderID (also its KEK label)
+	handler  http.Handler
 }
 
 func newC16World(r *core.RNG) *c16World {
@@ -62,6 +63,7 @@ func newC16World(r *core.RNG) *c16World {
 		nsLabel = "0x" + nsLabel
 	}
 	w.sender = nsLabel
+	w.emptyKEK = r.Bool()
 	if r.Bool() {
 		w.keks[nsLabel] = r.Bytes([]int{16, 24, 32}[r.Intn(3)])
 	}
@@ -102,7 +104,15 @@ func newC16World(r *core.RNG) *c16World {
 			}
 			return joinserver.DeviceKeys{DevEUI: e, NwkKey: lorawan.AES128Key(d.NwkKey), AppKey: lorawan.AES128Key(d.AppKey), JoinNonce: d.JoinNonce}, nil
 		},
-		GetKEKByLabelFunc: func(label string) ([]byte, error) { return w.keks[label], nil },
+		GetKEKByLabelFunc: func(label string) ([]byte, error) {
+			if k, ok := w.keks[label]; ok {
+				return k, nil
+			}
+			if w.emptyKEK {
+				return []byte{}, nil // "no KEK for this label" as an empty, non-nil slice
+			}
+			return nil, nil
+		},
 		GetASKEKLabelByDevEUIFunc: func(e lorawan.EUI64) (string, error) {
 			if d, ok := w.devs[[8]byte(e)]; ok {
 				return d.ASLabel, nil
